@@ -130,6 +130,15 @@ class Class:
     def subclasses(self):
         return [c for c in self.model.classes.values() if c is not self and self in c.repo_mro()]
 
+    def is_abstract(self):
+        """Cannot be instantiated: some abstract method of an ancestor (or its own) is not overridden concretely."""
+        names = {n for c in self.repo_mro() for n in c.methods if c.is_abstract_method(n)}
+        for n in names:
+            got = self.lookup(n)
+            if not isinstance(got, tuple) and got is not None and got.cls.is_abstract_method(n):
+                return True
+        return False
+
     def is_abstract_method(self, name):
         f = self.methods.get(name)
         return bool(f) and any(norm(d).split(".")[-1] == "abstractmethod" for d in f.node.decorator_list)
